@@ -178,6 +178,11 @@ def explore(fn, unit_name, opts=None, max_paths=400):
             out = ('infeasible',)
         except Unsupported as e:
             out = ('unsupported', str(e))
+        except (TypeError, AttributeError, KeyError, IndexError, ValueError, NotImplementedError, z3.Z3Exception) as e:
+            # the symbolic executor itself tripped over a construct of the (possibly changed) source: a front-end limit, never a verdict
+            import traceback as _tb
+            last = _tb.extract_tb(e.__traceback__)[-1]
+            out = ('unsupported', f'front end failed on this source: {type(e).__name__}: {str(e)[:120]} ({last.filename.split("/")[-1]}:{last.lineno})')
         todo.extend(ctx.pending)
         results.append(PathResult(ctx.trace, out, ctx))
         if len(results) > max_paths:
